@@ -64,3 +64,222 @@ fn c14_minus_counter_any_length() {
     kani::cover!(n == 1, "one removed line");
     kani::cover!(true, "end of harness reached");
 }
+
+// ------------------------------------------------------------------------------------------------
+// The hunk-header box (C05: "the position printed in a hunk header is the hunk's starting line
+// in the NEW file and the path printed there is that of the file the hunk belongs to").
+mod header_box {
+    use super::super::*;
+    use std::mem::MaybeUninit;
+    use std::ptr::{addr_of, addr_of_mut};
+
+    // ---- (a) which position is printed: the real
+    // `write_line_of_code_with_optional_path_and_line_number` with a monitor in place of the
+    // (local) `paint_file_path_with_line_number`
+    #[allow(clippy::too_many_arguments)]
+    fn stub_paint_path(line_number: Option<usize>, plus_file: &str, _fs: &Style, _ls: &Style, _ip: &HunkHeaderIncludeFilePath, _il: &HunkHeaderIncludeLineNumber, _sep: &str, config: &Config) -> String {
+        unsafe {
+            let p = config as *const Config as *mut Config;
+            addr_of_mut!((*p).max_line_length).write(match line_number {
+                Some(n) => n,
+                None => usize::MAX,
+            });
+            addr_of_mut!((*p).max_syntax_length).write(1 + plus_file.len());
+        }
+        String::new()
+    }
+
+    // never executed in the harness (nothing is left to draw) but reachable for the compiler:
+    // the drawing code reaches process::exit, on which kani-compiler 0.68 crashes
+    fn noop_draw(_w: &mut dyn std::io::Write, _a: &str, _b: &str, _c: &str, _d: &crate::cli::Width, _s: Style, _t: ansi_term::Style) -> std::io::Result<()> {
+        Ok(())
+    }
+    fn stub_get_draw_function(_d: DecorationStyle) -> (Box<draw::DrawFunction>, bool, ansi_term::Style) {
+        // a closure with a captured byte: kani-compiler 0.68 crashes on Box::new of a zero-sized fn item
+        let k = 1u8;
+        (
+            Box::new(move |w: &mut dyn std::io::Write, a: &str, b: &str, c: &str, d: &crate::cli::Width, s: Style, t: ansi_term::Style| {
+                let _ = k;
+                noop_draw(w, a, b, c, d, s, t)
+            }),
+            false,
+            ansi_term::Style::new(),
+        )
+    }
+    fn stub_write_to_output_buffer(_f: &str, _s: &str, _l: String, _ss: Option<StyleSectionSpecifier>, _h: &HunkHeaderIncludeHunkLabel, _p: &mut Painter, _c: &Config) {}
+    fn stub_write_hunk_header_raw(_p: &mut Painter, _l: &str, _r: &str, _c: &Config) -> std::io::Result<()> {
+        Ok(())
+    }
+
+    fn position<const N: usize>() {
+        let mut cfg_mem = MaybeUninit::<Config>::uninit();
+        let cp = cfg_mem.as_mut_ptr();
+        unsafe {
+            addr_of_mut!((*cp).color_only).write(false);
+            addr_of_mut!((*cp).max_line_length).write(7);
+            addr_of_mut!((*cp).max_syntax_length).write(0);
+        }
+        let config: &Config = unsafe { &*cp };
+        let mut painter_mem = MaybeUninit::<Painter>::uninit();
+        let painter: &mut Painter = unsafe { &mut *painter_mem.as_mut_ptr() }; // only passed through
+        let mut v: Vec<(usize, usize)> = Vec::with_capacity(N);
+        let mut shadow = [(0usize, 0usize); N];
+        for i in 0..N {
+            let e: (usize, usize) = (kani::any(), kani::any());
+            shadow[i] = e;
+            v.push(e);
+        }
+        let plain = Style::new();
+        let r = write_line_of_code_with_optional_path_and_line_number(
+            "",
+            &v,
+            None,
+            painter,
+            "",
+            "file",
+            DecorationStyle::NoDecoration,
+            &plain,
+            &plain,
+            &HunkHeaderIncludeFilePath::Yes,
+            &HunkHeaderIncludeLineNumber::Yes,
+            &HunkHeaderIncludeHunkLabel::Yes,
+            &HunkHeaderIncludeCodeFragment::No,
+            ":",
+            config,
+        );
+        assert!(r.is_ok(), "nothing to draw, nothing fails");
+        let (pos, path) = unsafe { (addr_of!((*cp).max_line_length).read(), addr_of!((*cp).max_syntax_length).read()) };
+        assert!(path == 5, "the path handed in is the path printed");
+        assert!(pos == shadow[N - 1].0, "the position printed is the start of the hunk in the new file (last entry of the header), whatever the lengths");
+        kani::cover!(shadow[N - 1].1 == 0 && shadow[0].0 != shadow[N - 1].0, "pure deletion: new-side length 0, starts differ");
+        kani::cover!(true, "end of harness reached");
+        std::mem::forget(v);
+    }
+
+    #[kani::proof]
+    #[kani::unwind(5)]
+    #[kani::stub(paint_file_path_with_line_number, stub_paint_path)]
+    #[kani::stub(crate::handlers::draw::get_draw_function, stub_get_draw_function)]
+    #[kani::stub(write_to_output_buffer, stub_write_to_output_buffer)]
+    fn c05_hunk_header_position_2() {
+        position::<2>();
+    }
+    #[kani::proof]
+    #[kani::unwind(5)]
+    #[kani::stub(paint_file_path_with_line_number, stub_paint_path)]
+    #[kani::stub(crate::handlers::draw::get_draw_function, stub_get_draw_function)]
+    #[kani::stub(write_to_output_buffer, stub_write_to_output_buffer)]
+    fn c05_hunk_header_position_3() {
+        position::<3>();
+    }
+
+    // ---- (b) which path is printed: the real `emit_hunk_header_line` with the box writer
+    // replaced by a monitor
+    #[allow(clippy::too_many_arguments)]
+    fn stub_write_box(
+        _code_fragment: &str,
+        line_numbers_and_hunk_lengths: &[(usize, usize)],
+        _style_sections: Option<StyleSectionSpecifier>,
+        _painter: &mut Painter,
+        _line: &str,
+        plus_file: &str,
+        _decoration_style: DecorationStyle,
+        _file_style: &Style,
+        _line_number_style: &Style,
+        _include_file_path: &HunkHeaderIncludeFilePath,
+        _include_line_number: &HunkHeaderIncludeLineNumber,
+        _include_hunk_label: &HunkHeaderIncludeHunkLabel,
+        _include_code_fragment: &HunkHeaderIncludeCodeFragment,
+        _file_path_separator: &str,
+        config: &Config,
+    ) -> std::io::Result<()> {
+        unsafe {
+            let p = config as *const Config as *mut Config;
+            addr_of_mut!((*p).max_syntax_length).write(1 + plus_file.len());
+            addr_of_mut!((*p).max_line_length).write(line_numbers_and_hunk_lengths.len());
+        }
+        Ok(())
+    }
+    fn stub_paint_buffered<'p>(_p: &mut Painter<'p>)
+    where
+        'p: 'p,
+    {
+    }
+    fn stub_set_highlighter<'p>(_p: &mut Painter<'p>)
+    where
+        'p: 'p,
+    {
+    }
+    fn stub_emit<'p>(_p: &mut Painter<'p>) -> std::io::Result<()>
+    where
+        'p: 'p,
+    {
+        Ok(())
+    }
+
+    // KIND: 0 both files real (old "old.rs", new "newer.rs"), 1 removed file (new side /dev/null),
+    //       2 added file (old side /dev/null)
+    fn path<const KIND: u8>() {
+        let mut cfg_mem = MaybeUninit::<Config>::uninit();
+        let cp = cfg_mem.as_mut_ptr();
+        let plain = Style::new();
+        unsafe {
+            addr_of_mut!((*cp).color_only).write(true); // no blank line through the (absent) writer
+            addr_of_mut!((*cp).line_numbers).write(false);
+            addr_of_mut!((*cp).hunk_header_style).write(plain);
+            addr_of_mut!((*cp).hunk_header_file_style).write(plain);
+            addr_of_mut!((*cp).hunk_header_line_number_style).write(plain);
+            addr_of_mut!((*cp).hunk_header_style_include_file_path).write(HunkHeaderIncludeFilePath::Yes);
+            addr_of_mut!((*cp).hunk_header_style_include_line_number).write(HunkHeaderIncludeLineNumber::Yes);
+            addr_of_mut!((*cp).hunk_header_style_include_code_fragment).write(HunkHeaderIncludeCodeFragment::Yes);
+            addr_of_mut!((*cp).max_line_length).write(0);
+            addr_of_mut!((*cp).max_syntax_length).write(0);
+        }
+        let config: &Config = unsafe { &*cp };
+        let mut sm_mem = MaybeUninit::<StateMachine>::uninit();
+        let sp = sm_mem.as_mut_ptr();
+        let (minus, plus) = match KIND {
+            0 => ("old.rs", "newer.rs"),
+            1 => ("old.rs", "/dev/null"),
+            _ => ("/dev/null", "newer.rs"),
+        };
+        unsafe {
+            addr_of_mut!((*sp).minus_file).write(minus.to_string());
+            addr_of_mut!((*sp).plus_file).write(plus.to_string());
+            addr_of_mut!((*sp).config).write(config);
+            addr_of_mut!((*sp).painter.config).write(config);
+        }
+        let sm: &mut StateMachine = unsafe { &mut *sp };
+        let parsed = ParsedHunkHeader { code_fragment: String::new(), line_numbers_and_hunk_lengths: vec![(kani::any(), kani::any()), (kani::any(), kani::any())] };
+        let r = sm.emit_hunk_header_line(&parsed, "@@ -1 +1 @@", "@@ -1 +1 @@");
+        assert!(matches!(r, Ok(true)), "hunk header handled");
+        let (n, path_len) = unsafe { (addr_of!((*cp).max_line_length).read(), addr_of!((*cp).max_syntax_length).read()) };
+        assert!(n == 2, "the parsed coordinates are handed to the box writer");
+        let want = match KIND {
+            0 => 1 + 8, // "newer.rs": the hunk belongs to the new file
+            1 => 1 + 6, // removed file: only the old name exists
+            _ => 1 + 8,
+        };
+        assert!(path_len == want, "the hunk header shows the new file's path, or the old one for a removed file");
+        kani::cover!(true, "end of harness reached");
+        std::mem::forget(parsed);
+    }
+
+    macro_rules! path_harness {
+        ($name:ident, $k:expr) => {
+            #[kani::proof]
+            #[kani::unwind(12)]
+            #[kani::stub(write_line_of_code_with_optional_path_and_line_number, stub_write_box)]
+            #[kani::stub(write_hunk_header_raw, stub_write_hunk_header_raw)]
+            #[kani::stub(crate::paint::Painter::paint_buffered_minus_and_plus_lines, stub_paint_buffered)]
+            #[kani::stub(crate::paint::Painter::set_highlighter, stub_set_highlighter)]
+            #[kani::stub(crate::paint::Painter::emit, stub_emit)]
+            fn $name() {
+                path::<$k>();
+            }
+        };
+    }
+    path_harness!(c05_hunk_header_path_renamed, 0);
+    path_harness!(c05_hunk_header_path_removed, 1);
+    path_harness!(c05_hunk_header_path_added, 2);
+}
